@@ -36,4 +36,22 @@ META = {
         "note": "Trusted: Lean kernel + standard axioms (+ the bv_decide axiom inherited from the shared codec lemma file); the CRC hypothesis; the file-system crash model. Known finding: records appended after a torn tail are never recovered. Rotation/checkpoint-metadata crash points and GrafeoDB-level scenarios are not yet streamed.",
         "technique": "Lean 4 proof (induction over the record list for every cut point) + fault-enumerating correspondence with the real WAL",
     },
+    "C11": {
+        "text": "Machine-checked Lean 4 theorems for EVERY chunking of the input (any number and sizes of chunks, so the 2047/2048/2049 boundaries are inside the quantifier) and every skip/limit value: LIMIT = take, SKIP = drop, SKIP+LIMIT = window (and equals Skip then Limit), UNION ALL = concatenation, window row counts, DISTINCT = first row of every key once in order (for input chunks within the builder capacity; an oversized chunk loses rows: witness + known finding). Tied to the real operators by feeding generated chunk streams through LimitOperator, SkipOperator, LimitSkipOperator, UnionOperator, DistinctOperator and comparing output chunk by chunk.",
+        "design_ref": "DESIGN.md 7 C11",
+        "note": "Trusted: Lean kernel + 3 standard axioms; harness; chunk abstraction. Not covered yet: the predicate partition p / NOT p / p IS NULL, count(*) through the aggregate operator, ORDER BY, and the query-level forms in each language.",
+        "technique": "Lean 4 proof (induction over the chunk list) + differential correspondence with the real operators",
+    },
+    "C16": {
+        "text": "Machine-checked Lean 4 theorems over ALL 2^64 float bit patterns and all integers: OrderedFloat64's cmp is a total order consistent with its eq (an equivalence), and equal OrderedFloat64 values hash equally (repaired code); HashableValue's equality is structural identity on the bit-level representation to any nesting depth, hence an equivalence whose equal values hash equally, and it never merges an int with a float or two floats with different bits. OrderableValue's cross-type equality is refuted by witness theorems (not transitive at 2^53; Int 1 = Float 1.0 with different hash input) and listed as known findings. Tied to the code by comparing ==, cmp and the exact words fed to a recording Hasher on generated values (special float table exhaustively pairwise).",
+        "design_ref": "DESIGN.md 7 C16",
+        "note": "Trusted: Lean kernel + 3 standard axioms; harness; IEEE comparison as modelled on bits. Not covered yet: the serialisation half (bincode, spill, JSON).",
+        "technique": "Lean 4 proof (case analysis on float classes, order on an integer key; mutual structural induction for nested values) + differential correspondence incl. recorded hash input",
+    },
+    "C17": {
+        "text": "Machine-checked Lean 4 theorems: morsels partition [0,total) exactly once for EVERY row count and morsel size; the k-way merge of sorted runs is a sorted permutation of all rows for EVERY number and length of runs and EVERY heap tie-breaking discipline; partial aggregates merged in worker order equal the sequential aggregate for EVERY split among any number of workers; a stateless per-row chain run over the morsels in ANY schedule is a permutation of the sequential output. Tied to generate_morsels, merge_sorted_runs and MergeableAccumulator by comparing outputs on generated inputs.",
+        "design_ref": "DESIGN.md 7 C17",
+        "note": "Trusted: Lean kernel + 3 standard axioms; harness; heap and scheduler abstractions. Not covered yet: push operators vs pull operators, the real ParallelPipeline with threads, external sort / spilling aggregation and spill-file cleanup.",
+        "technique": "Lean 4 proof (induction; permutation + sortedness for any minimal-head selection) + differential correspondence",
+    },
 }
